@@ -68,6 +68,8 @@ def classify(events, pos):
         return "iscycle/%s" % ("self-loop" if len(ev["nodes"]) >= 2 and ev["nodes"][-1] == ev["nodes"][-2] else "longer-cycle" if ev["nodes"][-1] in ev["nodes"][:-1] else "no-cycle")
     if ev["e"] == "paths":
         return "filter/%s/workers-%s" % (ev["mode"], "1" if ev["workers"] == 1 else "n")
+    if ev["e"] == "collected":
+        return "collectors/%s" % ("nodes" if ev["nodes"] != ev["n"] else "paths")
     if ev["e"] == "counter":
         return "counter/uint%d/%s/threads-%s" % (ev["width"], "told-not-at-maximum-after-maximum" if ev["late_false"] else "more-than-maximum-admitted" if ev["falses"] > min(ev["max"], ev["calls"]) else "fewer-than-maximum-admitted", "1" if ev["threads"] == 1 else "n")
     if ev["e"] == "skiplimit":
